@@ -98,6 +98,7 @@ class Sim:
         self.packet_hook: Any = None
         self.harness_errors: list[str] = []
         self.debug_clients = 0
+        self.idle_loops: list[Any] = []
         self.loop.set_exception_handler(self._exc_handler)
 
     # ------------------------------------------------------------------ plumbing
@@ -113,6 +114,13 @@ class Sim:
         self.loop_exceptions.append({"seq": self._seq, "t": self.clock, "message": context.get("message"),
                                      "exception": repr(context.get("exception"))})
         self.log("loop_exception", context.get("message"), repr(context.get("exception")))
+
+    def idle_loop_work(self) -> list[str]:
+        """Callbacks and timers the library parked on a loop that never runs (the one current when a client was constructed)."""
+        out = []
+        for lp in self.idle_loops:
+            out += [repr(h)[:160] for h in list(lp._ready) + list(lp._scheduled) if not h.cancelled()]  # noqa: SLF001
+        return out
 
     def __enter__(self) -> "Sim":
         import aiohappyeyeballs.impl as impl
@@ -155,6 +163,10 @@ class Sim:
             asyncio.set_event_loop(None)
             with warnings.catch_warnings():
                 warnings.simplefilter("ignore")
+                for lp in self.idle_loops:
+                    for h in list(lp._ready) + list(lp._scheduled):  # noqa: SLF001
+                        h.cancel()
+                    lp.close()
                 self.loop.close()
 
     def _harvest_direction(self) -> None:
@@ -275,12 +287,27 @@ class Sim:
         self.net.connect_policy = policy
         return dev
 
-    def client(self, address: str = "10.0.0.1", port: int = 6053, password: str | None = None, **kw: Any) -> Any:
+    def client(self, address: str = "10.0.0.1", port: int = 6053, password: str | None = None, *, outside_loop: bool = False, **kw: Any) -> Any:
         from aioesphomeapi import APIClient
 
         global _CLIENTS_MADE
         _CLIENTS_MADE += 1
-        cli = APIClient(address, port, password, **kw)
+        if outside_loop:
+            # the application builds its client in synchronous set-up code and only then starts the loop that runs the connection
+            # (`client = APIClient(...)` followed by `asyncio.run(main())`): whatever loop is current at construction is NOT the one
+            # that will run; work the library schedules on it is never executed (monitored by idle_loop_work())
+            other = asyncio.new_event_loop()
+            self.idle_loops.append(other)
+            running = asyncio._get_running_loop()  # noqa: SLF001
+            asyncio._set_running_loop(None)  # noqa: SLF001  -- synchronous code: no loop is running while the object is built
+            asyncio.set_event_loop(other)
+            try:
+                cli = APIClient(address, port, password, **kw)
+            finally:
+                asyncio.set_event_loop(self.loop)
+                asyncio._set_running_loop(running)  # noqa: SLF001
+        else:
+            cli = APIClient(address, port, password, **kw)
         if _CLIENTS_MADE % 4 == 3:
             # every 4th client of the process runs with the library's debug flag on: the debug-only branches (extra logging, but also
             # control flow that differs, e.g. in the keep-alive sender) are part of the code under test
